@@ -160,3 +160,10 @@ def backend():
         registry.register(b)
         _registered["b"] = b
     return _registered["b"]
+
+
+def ensure(case):
+    """Register the double if the case (or backend name) refers to it."""
+    b = case.get("backend") if isinstance(case, dict) else case
+    if b == NAME:
+        backend()
